@@ -267,6 +267,43 @@ def run(chk):
             ia = cs.p3(a, pos, d, ALL)
             ib = cs.p3(b, pos, d, ALL)
             plan.append((ia, ib, wf))
+    # slabs that run almost flat for a long way and turn steeply down at the tip, with the region above the slab top included
+    # (negative top truncation): the outermost points of the feature lie at a horizontal distance of nearly
+    # total length + top truncation from the trench, beyond sqrt(length^2 + truncation^2): the buffer of the surface
+    # bounding box has to be the sum (theorem C07_reach_and_cutoff_chain)
+    for wi in range(6 if quick else 60):
+        rng.seed("%d/c07-5/%d" % (chk.seed, wi))
+        x0, y0 = float(round(rng.uniform(-2e5, 2e5))), float(round(rng.uniform(-2e5, 2e5)))
+        L1, L2 = float(round(rng.uniform(4e5, 6e5))), float(round(rng.uniform(2e4, 4e4)))
+        th = float(round(rng.uniform(6e4, 1.0e5)))
+        tr = float(round(rng.uniform(0.9e5, 1.2e5)))
+        a1, a2 = float(round(rng.uniform(2.0, 5.0), 1)), float(round(rng.uniform(75.0, 88.0), 1))
+        sgn = 1.0 if wi % 2 == 0 else -1.0
+        f = {"model": "subducting plate", "name": "flatsteep", "coordinates": [[x0, y0 - 3e5], [x0, y0 + 3e5]], "dip point": [x0 + sgn * 1e6, y0],
+             "segments": [{"length": L1, "thickness": [th], "top truncation": [-tr], "angle": [a1]},
+                          {"length": L2, "thickness": [th], "top truncation": [-tr], "angle": [a2]}],
+             "composition models": [{"model": "uniform", "compositions": [0], "min distance slab top": -tr}]}
+        wf = {"version": "1.1", "features": [f]}
+        a = cs.add_world(wf, model=False)
+        cs.raw("culling 0", "let () = out_str \"skip\"", {"kind": "hook"})
+        b = cs.add_world(wf, model=False)
+        cs.raw("culling 1", "let () = out_str \"skip\"", {"kind": "hook"})
+        r1, r2 = _m.radians(a1), _m.radians(a2)
+        hyp = _m.hypot(max(th, tr), L1 + L2)
+        n_in = 0
+        for qi in range(400):
+            s_ = rng.uniform(0.1, 0.98) * L2
+            off = rng.uniform(0.3, 0.97) * tr
+            su, sv = L1 * _m.cos(r1) + s_ * _m.cos(r2), L1 * _m.sin(r1) + s_ * _m.sin(r2)
+            u, v = su + off * _m.sin(r2), sv - off * _m.cos(r2)
+            if u < hyp + 2e3 or v < 0 or n_in >= 40:
+                continue
+            n_in += 1
+            d = float(round(v))
+            pos = (x0 + sgn * u, y0 + rng.uniform(-2.5e5, 2.5e5), 1000e3 - d)
+            ia = cs.p3(a, pos, d, ALL)
+            ib = cs.p3(b, pos, d, ALL)
+            plan.append((ia, ib, wf))
     # the kd-guided triangle search and its fallbacks (longitude copy of the point, scan over all triangles) on irregular
     # triangulations across the +-180 meridian, written on either longitude branch (170..190 and -190..-170): every lookup
     # must give what a scan over all triangles gives (the model, bit for bit; an exception "not in any triangle" is a discarded point)
